@@ -16,8 +16,8 @@ impl View for Uuid {
 }
 
 // ---- errors -------------------------------------------------------------------------------------
-/// `sos_client_storage::Error` — opaque; `#[from] std::io::Error`, `#[from] sos_backend::Error`
-pub struct ClientError { pub _p: () }
+/// `sos_client_storage::Error`: the variant constructed here + catch-all (`#[from] std::io::Error`, `#[from] sos_backend::Error`, ..)
+pub enum ClientError { NotFileContent, Other }
 #[verifier::external]
 impl core::fmt::Debug for ClientError { fn fmt(&self, f: &mut core::fmt::Formatter<'_>) -> core::fmt::Result { Ok(()) } }
 pub type ClResult<T> = core::result::Result<T, ClientError>;
@@ -25,17 +25,17 @@ pub type ClResult<T> = core::result::Result<T, ClientError>;
 pub struct IoError { pub _p: () }
 #[verifier::external]
 impl core::fmt::Debug for IoError { fn fmt(&self, f: &mut core::fmt::Formatter<'_>) -> core::fmt::Result { Ok(()) } }
-impl From<IoError> for ClientError { #[verifier::external_body] fn from(_e: IoError) -> ClientError { ClientError { _p: () } } }
+impl From<IoError> for ClientError { #[verifier::external_body] fn from(_e: IoError) -> ClientError { ClientError::Other } }
 /// `sos_backend::Error` — opaque
 pub struct BackendError { pub _p: () }
 #[verifier::external]
 impl core::fmt::Debug for BackendError { fn fmt(&self, f: &mut core::fmt::Formatter<'_>) -> core::fmt::Result { Ok(()) } }
-impl From<BackendError> for ClientError { #[verifier::external_body] fn from(_e: BackendError) -> ClientError { ClientError { _p: () } } }
+impl From<BackendError> for ClientError { #[verifier::external_body] fn from(_e: BackendError) -> ClientError { ClientError::Other } }
 /// `sos_external_files::Error` -> client error (`#[from]`)
 pub struct ExtFilesError { pub _p: () }
 #[verifier::external]
 impl core::fmt::Debug for ExtFilesError { fn fmt(&self, f: &mut core::fmt::Formatter<'_>) -> core::fmt::Result { Ok(()) } }
-impl From<ExtFilesError> for ClientError { #[verifier::external_body] fn from(_e: ExtFilesError) -> ClientError { ClientError { _p: () } } }
+impl From<ExtFilesError> for ClientError { #[verifier::external_body] fn from(_e: ExtFilesError) -> ClientError { ClientError::Other } }
 
 // ---- paths ------------------------------------------------------------------------------------------
 /// std::path::PathBuf, viewed as the text of the path
@@ -175,22 +175,38 @@ impl ProgressSender {
 }
 
 // ---- the `Secret` type as far as file_manager.rs looks into it ------------------------------------------
-/// `sos_vault::secret::UserData` (secret.rs:645): only its fields (embedded rows) are read here
+/// `sos_vault::secret::SecretMeta` (secret.rs) — opaque; the view is the whole value
 #[verifier::external_body]
-pub struct UserData { _p: () }
-/// `sos_vault::secret::FileContent` (secret.rs:810) — real shape of the variant that is matched; `Embedded` collapsed
+pub struct SecretMeta { _p: () }
+#[verifier::external_body]
+pub ghost struct SecretMetaV { _p: () }
+impl View for SecretMeta { type V = SecretMetaV; uninterp spec fn view(&self) -> SecretMetaV; }
+impl Clone for SecretMeta {
+    /// `#[derive(Clone)]`
+    #[verifier::external_body]
+    fn clone(&self) -> (r: SecretMeta) ensures r@ == self@, { unimplemented!() }
+}
+/// `sos_vault::secret::FileContent` (secret.rs:810) — real shape of the variant that is matched; `Embedded` without its buffer
 pub enum FileContent {
     Embedded { name: String, mime: String, checksum: [u8; 32] },
     External { name: String, mime: String, checksum: [u8; 32], size: u64, path: Option<PathBuf> },
 }
-/// `sos_vault::secret::Secret` (secret.rs:1089): the `File` variant with its real fields; the 15 other variants
-/// (which file_manager.rs never matches) collapsed into `Other`
+/// everything of a non-file secret variant except its user data (which variant, and all its other fields) — opaque
+#[verifier::external_body]
+pub struct OtherSecret { _p: () }
+/// `sos_vault::secret::Secret` (secret.rs:1089): the `File` variant with its real fields; each of the 15 other variants
+/// (which file_manager.rs never matches) as `Other`: what it is (`rest`) and its `user_data` (every variant has one).
+/// `UserData` and `SecretRow` are the REAL structs (extracted in units/filemgr.vrs).
 pub enum Secret {
     File { content: FileContent, user_data: UserData },
-    Other { user_data: UserData },
+    Other { rest: OtherSecret, user_data: UserData },
 }
 pub open spec fn ud(s: &Secret) -> UserData {
-    match s { Secret::File { content, user_data } => *user_data, Secret::Other { user_data } => *user_data }
+    match s { Secret::File { content, user_data } => *user_data, Secret::Other { rest, user_data } => *user_data }
+}
+/// the secret with another user data, everything else as it is
+pub open spec fn with_ud(s: Secret, u: UserData) -> Secret {
+    match s { Secret::File { content, user_data } => Secret::File { content, user_data: u }, Secret::Other { rest, user_data } => Secret::Other { rest, user_data: u } }
 }
 impl Secret {
     /// secret.rs `Secret::user_data`: the `user_data` field of the variant
@@ -198,26 +214,38 @@ impl Secret {
     pub fn user_data(&self) -> (r: &UserData)
         ensures *r == ud(self),
     { unimplemented!() }
-}
-/// `sos_vault::secret::SecretRow` (secret.rs:582) — id and secret are read here
-#[verifier::external_body]
-pub struct SecretRow { _p: () }
-impl SecretRow {
-    pub uninterp spec fn sec(&self) -> Secret;
-    pub uninterp spec fn rid(&self) -> SecretId;
-    /// secret.rs:613 `&self.secret`
+    /// secret.rs:1715 `Secret::user_data_mut`: `&mut` to the `user_data` field of the variant
     #[verifier::external_body]
-    pub fn secret(&self) -> (r: &Secret) ensures *r == self.sec(), { unimplemented!() }
-    /// secret.rs:598 `&self.id`
-    #[verifier::external_body]
-    pub fn id(&self) -> (r: &SecretId) ensures *r == self.rid(), { unimplemented!() }
+    pub fn user_data_mut(&mut self) -> (r: &mut UserData)
+        ensures *r == ud(old(self)), *final(self) == with_ud(*old(self), *final(r)),
+    { unimplemented!() }
 }
+pub open spec fn opt_str(o: Option<String>) -> Option<Seq<char>> { match o { Some(s) => Some(s@), None => None } }
 impl UserData {
-    pub uninterp spec fn flds(&self) -> Seq<SecretRow>;
-    /// secret.rs `UserData::fields`: `&self.fields`
+    /// secret.rs `comment`: `self.comment.as_ref().map(|s| &s[..])` — the comment as a str
     #[verifier::external_body]
-    pub fn fields(&self) -> (r: &Vec<SecretRow>) ensures r@ == self.flds(), { unimplemented!() }
+    pub fn comment(&self) -> (r: Option<&str>)
+        ensures (match r { Some(s) => Some(s@), None => None }) == opt_str(self.comment),
+    { unimplemented!() }
+    /// secret.rs `recovery_note`: `self.recovery_note.as_ref().map(|s| &s[..])`
+    #[verifier::external_body]
+    pub fn recovery_note(&self) -> (r: Option<&str>)
+        ensures (match r { Some(s) => Some(s@), None => None }) == opt_str(self.recovery_note),
+    { unimplemented!() }
 }
+impl Clone for UserData {
+    /// `#[derive(Clone)]` on UserData: an equal value
+    #[verifier::external_body]
+    fn clone(&self) -> (r: UserData) ensures r == *self, { unimplemented!() }
+}
+impl Clone for SecretRow {
+    /// `#[derive(Clone)]` on SecretRow: an equal value
+    #[verifier::external_body]
+    fn clone(&self) -> (r: SecretRow) ensures r == *self, { unimplemented!() }
+}
+/// `Option<PathBuf>::clone`
+#[verifier::external_body]
+pub fn opt_path_clone(o: &Option<PathBuf>) -> (r: Option<PathBuf>) ensures r == *o, { unimplemented!() }
 /// `sos_vault::Summary` — only the id is read here
 #[verifier::external_body]
 pub struct Summary { _p: () }
@@ -237,9 +265,6 @@ pub fn string_to_owned(s: &String) -> (r: String)
 { unimplemented!() }
 
 // ---- file event log -----------------------------------------------------------------------------------------
-/// `sos_external_files::FileStorageResult` (types.rs) — opaque
-#[verifier::external_body]
-pub struct FileStorageResult { _p: () }
 /// `sos_backend::FileEventLog` — ghost view: the file events appended so far (unit log `apply` [append_exact])
 #[verifier::external_body]
 pub struct FileEventLog { _p: () }
@@ -371,6 +396,122 @@ impl ReadDir {
 /// R12 `$p.read_dir()` (std `Path::read_dir` = `fs::read_dir`: Err unless `$p` is a readable directory).  Reads only.
 #[verifier::external_body]
 pub fn vread_dir(fs: &Fs, p: &PathBuf) -> (r: core::result::Result<ReadDir, IoError>) { unimplemented!() }
-/// `Option<T>::as_mut` (core/src/option.rs)
+
+// ---- write_update_checksum: callees that are not under contract here, std helpers ---------------------------------
+/// error payload of `<[u8] as TryInto<[u8; N]>>`
+pub struct TryFromSliceError { pub _p: () }
+#[verifier::external]
+impl core::fmt::Debug for TryFromSliceError { fn fmt(&self, f: &mut core::fmt::Formatter<'_>) -> core::fmt::Result { Ok(()) } }
+impl From<TryFromSliceError> for ClientError { #[verifier::external_body] fn from(_e: TryFromSliceError) -> ClientError { ClientError::Other } }
+/// R12a `$s.as_slice().try_into()` with target `[u8; N]` (as in prelude/base.rs): Ok iff the slice has exactly N elements
 #[verifier::external_body]
-pub fn opt_as_mut(o: &mut Option<ProgressSender>) -> (r: Option<&mut ProgressSender>) { unimplemented!() }
+pub fn slice_to_array<const N: usize>(s: &[u8]) -> (r: core::result::Result<[u8; N], TryFromSliceError>)
+    ensures r is Ok <==> s@.len() == N, r is Ok ==> r->Ok_0@ == s@,
+{ unimplemented!() }
+/// file_manager.rs:563 `get_file_sources` (not under contract: a nested fn item): the files named by `path: Some(..)`
+#[verifier::external_body]
+pub fn get_file_sources(secret: &Secret) -> (r: Vec<FileSource>) { unimplemented!() }
+/// `hex::encode` (hex-0.4): two lower-case hex digits per byte
+pub uninterp spec fn hex_enc(b: Seq<u8>) -> Seq<char>;
+#[verifier::external_body]
+pub fn hex_encode(b: &Vec<u8>) -> (r: String) ensures r@ == hex_enc(b@), { unimplemented!() }
+/// R12 `file_name.parse()?` at type ExternalFileName (crates/core/src/file.rs:67 `FromStr`: `hex::decode(s)?` must give 32 bytes;
+/// unit files puts it under contract): the name whose hex text this is
+#[verifier::external_body]
+pub fn parse_external_file_name(s: &String) -> (r: core::result::Result<ExternalFileName, ClientError>)
+    ensures r is Ok ==> hex_enc(r->Ok_0.0@) == s@,
+{ unimplemented!() }
+/// **Assumption HEX-INJ**: hex encoding is injective
+pub broadcast axiom fn axiom_hex_injective(a: Seq<u8>, b: Seq<u8>)
+    ensures #[trigger] hex_enc(a) == #[trigger] hex_enc(b) ==> a == b;
+impl ExternalFileManager {
+    /// file_manager.rs:70 -> external_files.rs:84 `FileStorage::encrypt_file_storage` (unit files [name_is_digest]): the
+    /// encrypted blob is written at `files_dir/<folder>/<secret>/<hex(digest)>`, `digest` = SHA-256 of what was written
+    /// (32 bytes); no other regular file changes (R20: explicit `fs`)
+    #[verifier::external_body]
+    pub fn encrypt_file_storage(&self, vault_id: &VaultId, secret_id: &SecretId, source: &PathBuf, fs: &mut Fs) -> (r: ClResult<EncryptedFile>)
+        ensures
+            r is Err ==> final(fs)@.files == old(fs)@.files,
+            r is Ok ==> r->Ok_0.digest@.len() == 32 && ({ let p = file_path(self.paths.root(), vault_id@, secret_id@, r->Ok_0.digest@);
+                final(fs)@.files.contains_key(p) && final(fs)@.files == old(fs)@.files.insert(p, final(fs)@.files[p]) }),
+    { unimplemented!() }
+}
+/// R12 `$v.iter().find(|x| $body)` on a Vec (core::slice::Iter + Iterator::find): the first element for which the closure
+/// returns true (same text as prelude/archive_zip.rs; verified, not assumed)
+pub fn vec_iter_find<'a, T, F: Fn(&T) -> bool>(v: &'a Vec<T>, f: F) -> (r: Option<&'a T>)
+    requires forall|x: &T| call_requires(f, (x,)),
+    ensures
+        r matches Some(x) ==> exists|i: int| 0 <= i < v@.len() && *x == #[trigger] v@[i] && call_ensures(f, (&v@[i],), true),
+        r is None ==> forall|i: int| #![trigger v@[i]] 0 <= i < v@.len() ==> call_ensures(f, (&v@[i],), false),
+{
+    let mut i: usize = 0;
+    while i < v.len()
+        invariant
+            i <= v@.len(),
+            forall|x: &T| call_requires(f, (x,)),
+            forall|j: int| #![trigger v@[j]] 0 <= j < i ==> call_ensures(f, (&v@[j],), false),
+        decreases v@.len() - i,
+    {
+        if f(&v[i]) { return Some(&v[i]); }
+        i += 1;
+    }
+    None
+}
+/// R12 `$v.iter().enumerate()` on a Vec (core::iter::Enumerate over core::slice::Iter): (0, &v[0]), (1, &v[1]), .. in order
+#[verifier::external_body]
+#[verifier::reject_recursive_types(T)]
+pub struct VecEnumerate<'a, T> { _p: core::marker::PhantomData<&'a T> }
+impl<'a, T> VecEnumerate<'a, T> {
+    pub uninterp spec fn rest(&self) -> Seq<(usize, &'a T)>;
+}
+impl<'a, T> Iterator for VecEnumerate<'a, T> {
+    type Item = (usize, &'a T);
+    #[verifier::external_body]
+    fn next(&mut self) -> (r: Option<(usize, &'a T)>) { unimplemented!() }
+}
+impl<'a, T> vstd::std_specs::iter::IteratorSpecImpl for VecEnumerate<'a, T> {
+    open spec fn obeys_prophetic_iter_laws(&self) -> bool { true }
+    #[verifier::prophetic]
+    open spec fn remaining(&self) -> Seq<(usize, &'a T)> { self.rest() }
+    #[verifier::prophetic]
+    open spec fn will_return_none(&self) -> bool { true }
+    open spec fn decrease(&self) -> Option<nat> { Some(self.rest().len()) }
+    open spec fn peek(&self, i: int) -> Option<(usize, &'a T)> {
+        if 0 <= i < self.rest().len() { Some(self.rest()[i]) } else { None }
+    }
+}
+#[verifier::external_body]
+pub fn venumerate<'a, T>(v: &'a Vec<T>) -> (r: VecEnumerate<'a, T>)
+    ensures r.rest().len() == v@.len(), forall|i: int| 0 <= i < v@.len() ==> (#[trigger] r.rest()[i]).0 == i && *r.rest()[i].1 == v@[i],
+{ unimplemented!() }
+/// R12 `$xs.into_iter().map($f).collect::<Vec<_>>()` on a Vec (by value): `$f` once per element, in order
+#[verifier::external_body]
+pub fn vmap_into_collect<T, U, F: Fn(T) -> U>(f: F, xs: Vec<T>) -> (r: Vec<U>)
+    requires forall|x: T| #[trigger] f.requires((x,)),
+    ensures r@.len() == xs@.len(), forall|i: int| 0 <= i < xs@.len() ==> f.ensures((xs@[i],), #[trigger] r@[i]),
+{ unimplemented!() }
+
+// ---- update_files: callees not under contract, derives ------------------------------------------------------------
+/// `sos_external_files::FileStorageDiff<'a>` (types.rs:37) — real shape
+pub struct FileStorageDiff<'a> { pub deleted: Vec<&'a Secret>, pub unchanged: Vec<&'a Secret> }
+/// file_manager.rs:614 `get_file_secret_diff` (not under contract: `iter().find(|other| field.secret() == other.secret())` needs
+/// `PartialEq for Secret`): which external files of the old secret are gone, which of the new one are unchanged
+#[verifier::external_body]
+pub fn get_file_secret_diff<'a>(old_secret: &'a Secret, new_secret: &'a Secret) -> (r: FileStorageDiff<'a>) { unimplemented!() }
+impl PartialEq for Summary {
+    /// `#[derive(PartialEq)]` on Summary (vault.rs:172): all fields equal; nothing is promised here
+    #[verifier::external_body]
+    fn eq(&self, other: &Self) -> (r: bool) { unimplemented!() }
+}
+impl PartialEq for Uuid {
+    /// `uuid::Uuid` equality: derived `PartialEq` on the 16 bytes
+    #[verifier::external_body]
+    fn eq(&self, other: &Self) -> (r: bool)
+        ensures r == (self@ == other@),
+    { self.0 == other.0 }
+}
+impl Clone for FileMutationEvent {
+    /// `#[derive(Clone)]` on FileMutationEvent (types.rs:67): an equal value
+    #[verifier::external_body]
+    fn clone(&self) -> (r: FileMutationEvent) ensures r == *self, { unimplemented!() }
+}
